@@ -170,6 +170,10 @@ class Series:
         raise Unsupported('minipd: Series[%r] = ...' % type(item).__name__)
     # ---- missing data
     def isnull(self): return Series([_isnan(v) or v is None for v in self._v], self._i)
+    def dropna(self, **kw):
+        if kw: raise Unsupported('minipd: Series.dropna options')
+        keep = [i for i, v in enumerate(self._v) if not _isnan(v)]          # forks on symbolic NaN-ness
+        return Series([self._v[i] for i in keep], Index([self._i._l[i] for i in keep], self._i.name), self.name)
     isna = isnull
     def notnull(self): return Series([core.sym_not(_isnan(v)) and v is not None for v in self._v], self._i)
     def last_valid_index(self):
@@ -265,6 +269,15 @@ class Series:
     def __neg__(self): return Series([-v for v in self._v], Index(self._i._l), self.name)
     def __abs__(self): return Series([abs(v) for v in self._v], Index(self._i._l), self.name)
     def __repr__(self): return 'minipd.Series(%r, %r)' % (self._v, self._i._l)
+
+def _or_all(bs):
+    r = False
+    for b in bs: r = _or(r, b)
+    return r
+def _and_all(bs):
+    r = True
+    for b in bs: r = _and(r, b)
+    return r
 
 def _npdiv(a, b):
     """numpy float division: x/0 -> +-inf, 0/0 -> nan (no exception)"""
@@ -440,6 +453,14 @@ class DataFrame:
         f = self.copy()
         for c in f._cols: f._c[c] = [core.sym_not(v) for v in f._c[c]]
         return f
+    def dropna(self, how = 'any', **kw):
+        if kw or how not in ('any', 'all'): raise Unsupported('minipd: dropna options')
+        keep = []
+        for i in range(len(self)):
+            nans = [_isnan(self._c[c][i]) for c in self._cols]
+            drop = (_or_all(nans) if how == 'any' else _and_all(nans)) if nans else False
+            if not drop: keep.append(i)                                   # forks on symbolic NaN-ness
+        return self._take(keep)
     def reindex(self, index = None, method = None, limit = None, **kw):
         new = _mk_index(index); f = DataFrame(); f._cols = Columns(self._cols); f._i = Index(new._l, new.name)
         f._c = {c: Series(self._c[c], Index(self._i._l)).reindex(new, method = method, limit = limit)._v for c in self._cols}
@@ -521,8 +542,14 @@ def concat(objs, axis = 0, **kw):
     if axis == 1:
         if not objs or not all(isinstance(o, Series) for o in objs): raise Unsupported('minipd: concat(axis=1) of non-Series')
         first = objs[0]._i
-        if not all(o._i.equals(first) for o in objs): raise Unsupported('minipd: concat(axis=1) of differently indexed series')
-        f = DataFrame(); names = [o.name if o.name is not None else k for k, o in enumerate(objs)]
+        names = [o.name if o.name is not None else k for k, o in enumerate(objs)]
+        if len(set(names)) != len(names): names = list(range(len(objs)))        # pandas keeps duplicate labels; the code under test relabels the columns 0..n-1 straight away (gated through the real df_slice)
+        if not all(o._i.equals(first) for o in objs):
+            # outer join on the (sorted, duplicate-free) indexes: sorted union, NaN where a series has no observation
+            joint = first
+            for o in objs[1:]: joint = joint.union(o._i)
+            objs = [o.reindex(joint) for o in objs]; first = joint
+        f = DataFrame()
         f._cols = Columns(names); f._c = {n: list(o._v) for n, o in zip(names, objs)}; f._i = Index(first._l, first.name); return f
     if axis != 0: raise Unsupported('minipd: concat(axis=%r)' % (axis,))
     if objs and all(isinstance(o, DataFrame) for o in objs):
